@@ -2,6 +2,9 @@
 import store_hist as H
 
 ID = "C01"
+# the model numbers fiber identities and rank lists in construction (DFS) order: no post-construction
+# re-assignment of sub-trees in the shared builder (the histories themselves contain such assignments)
+REASSIGN_MODE = False
 THEOREMS = ["C01_init_wf", "C01_step_wf", "C01_history_wf", "C01_wf_meaning", "C01_wf_tree_spec",
             "C01_reject_atomic", "C01_model_meets_spec"]
 COQ_IMPORTS = "From FT Require Import Model.Base Model.Obs Model.Store Model.StoreCheck."
